@@ -568,6 +568,13 @@ def generate_all(base_build_dir):
     groups["params"] = {"obligations": pr["obligations"], "failures": pr["failures"]}
     import translate_ct
     groups["ct"] = translate_ct.generate(gen_dir)
+    # tower formulas of src/fpx (property C10)
+    try:
+        import translate_fpx
+        fr = translate_fpx.generate()
+        groups["fpx"] = {"obligations": fr["obligations"], "failures": fr["failures"]}
+    except Exception as e:  # noqa: BLE001
+        groups["fpx"] = {"obligations": [], "failures": ["translate_fpx: %r" % (e,)]}
     # Edwards formulas (C17): translated from the 255-bit configurations
     try:
         import translate_ed
